@@ -135,7 +135,7 @@ def oracle_c35(world, x, ctxs, ref):
     return probs
 
 
-ORACLES = {'C08': oracle_c08, 'C09': oracle_c09, 'C35': oracle_c35}
+ORACLES = {'C08': oracle_c08, 'C09': oracle_c09, 'C35': oracle_c35, 'C37': oracle_c08, 'C38': oracle_c08}
 
 
 def install_close_monitor(world):
